@@ -187,7 +187,21 @@ fn reset_case(t: &mut Tape, w: &Worker) -> CaseResult {
     let p1 = mk(0, vec![ihw(7), tdh(&t0), data_word(0x20, &nine), tdt(0, 0, false, false, false)], if fmt0 { 0 } else { 3 });
     // 2: over-padded (content would be a legal continuation page)
     let tc = TdhF { continuation: true, ..t0 };
-    let p2 = mk(1, vec![ihw(7), tdh(&tc), data_word(0x20, &nine), tdt(0, 0, true, false, false)], ff);
+    // shape of the over-padded packet: a page of words + padding / nothing but 0xFF (one 16-byte line, with the stop bit,
+    // as the closing page of an HBF would be; or 1..3 lines) / a single word + padding
+    let shape = t.weighted(&[3, 2, 2, 2]);
+    let mut p2 = match shape {
+        0 => mk(1, vec![ihw(7), tdh(&tc), data_word(0x20, &nine), tdt(0, 0, true, false, false)], ff),
+        1 => mk(1, vec![], 16),
+        2 => mk(1, vec![], 16 * (1 + t.below(3)) + if fmt0 { 0 } else { t.below(2) * 16 }),
+        _ => mk(1, vec![ihw(7)], ff),
+    };
+    if shape == 1 || (shape > 1 && t.chance(1, 2)) {
+        p2.rdh.stop_bit = 1;
+    }
+    let ff = if shape == 0 || shape == 3 { ff } else { p2.payload().len() };
+    let stop2 = p2.rdh.stop_bit;
+    let shape_name = ["words+padding", "one 0xFF line, stop bit", "only 0xFF lines", "one word+padding"][shape];
     // 3: starts from scratch: IHW + TDH(cont = third_cont)
     let t3 = TdhF { continuation: third_cont, ..t0 };
     let p3 = mk(2, vec![ihw(7), tdh(&t3), data_word(0x20, &nine), tdt(0, 0, true, false, false)], 0);
@@ -209,7 +223,7 @@ fn reset_case(t: &mut Tape, w: &Worker) -> CaseResult {
     };
     let o2 = lay.packets[1].offset;
     let o3 = lay.packets[2].offset;
-    let detail = json!({"trailing_ff": ff, "third_tdh_continuation": third_cont, "via_cli": via_cli, "errors": errors.iter().map(|e| e.lines().next().unwrap_or("").to_string()).collect::<Vec<_>>(), "input": input_detail(&bytes)});
+    let detail = json!({"trailing_ff": ff, "overpadded_packet": shape_name, "its_stop_bit": stop2, "third_tdh_continuation": third_cont, "via_cli": via_cli, "errors": errors.iter().map(|e| e.lines().next().unwrap_or("").to_string()).collect::<Vec<_>>(), "input": input_detail(&bytes)});
     let pad_msgs: Vec<&String> = errors.iter().filter(|e| e.contains("Payload error following RDH")).collect();
     if pad_msgs.len() != 1 || !pad_msgs[0].starts_with(&format!("{o2:#X}:")) {
         return Err(Fail::new("C12:overpadding-not-reported-once-at-rdh", format!("{} padding messages (expected exactly one at {o2:#X})", pad_msgs.len()), detail));
@@ -230,9 +244,10 @@ fn reset_case(t: &mut Tape, w: &Worker) -> CaseResult {
     }
     let mut out = CaseOut::default();
     out.nontrivial = true;
-    out.fingerprint = (ff as u64) << 8 | (fmt0 as u64) << 2 | (third_cont as u64) << 1 | via_cli as u64;
+    out.fingerprint = (ff as u64) << 8 | (shape as u64) << 4 | (stop2 as u64) << 3 | (fmt0 as u64) << 2 | (third_cont as u64) << 1 | via_cli as u64;
     out.execs = via_cli as u64;
     out.labels.push(format!("reset:{}:{}", if via_cli { "cli" } else { "inproc" }, if fmt0 { "format0" } else { "format2" }));
+    out.labels.push(format!("reset:shape:{shape_name}"));
     if w.take_sample() {
         out.sample = Some(detail);
     }
